@@ -90,7 +90,9 @@ func RunSeederScenario(sc *SeedScenario, scen int, log *scenLog, stats map[strin
 				barrier <- struct{}{}
 				return &spay{sentinel: true}
 			}
-			log.emit(rec{"op": "foreach", "from": from, "pending": s.VerifPendingResponsesSize()})
+			if sc.Tight { // the pending-memory sample only matters under a tight limit; keeps the other traces short
+				log.emit(rec{"op": "foreach", "from": from, "pending": s.VerifPendingResponsesSize()})
+			}
 			p := &spay{}
 			for i := from; i < seedItems; i++ {
 				if !onKey(sloc(i)) {
